@@ -1,0 +1,233 @@
+//go:build verif
+
+// Machine-checked contracts for package ufs (comment-only; exists only under the
+// build tag "verif"). Read by /verif/engine (p9vc); see /verif/DESIGN.md.
+
+package ufs
+
+// The operating system is the environment: every host call is an arbitrary but deterministic function of its arguments and
+// of its position in the history (osepoch). Each call REQUIRES that the host path it is given is confined to the export:
+// confined(h) can only be established for h = filepath.Join(Base, filepath.FromSlash(p)) with p a valid internal path.
+
+//@ ghost osepoch int
+//@ macro OE = gk(osepoch, 0)
+//@ macro OTICK = (OE == old(OE) + 1)
+//@ macro OSAME = (OE == old(OE))
+//@ pure exportbase() string
+//@ pure validInternal(p string) bool = path.IsAbs(p) && !strings.Contains(p, "\\") && path.Clean(p) == p
+//@ pure hostOf(p string) string = filepath.Join(exportbase(), filepath.FromSlash(p))
+//@ pure confined(h string) bool
+//@ axiom [ufs] confined_def: forall p string :: {hostOf(p)} validInternal(p) ==> confined(hostOf(p))
+
+//@ pure osStatI(h string, e int) os.FileInfo
+//@ pure osStatE(h string, e int) error
+//@ extern os.Stat
+//@ use ufs
+//@ modifies alloc, osepoch
+//@ requires in_export: confined(name)
+//@ ensures OTICK && result0 == osStatI(name, old(OE)) && err == osStatE(name, old(OE)) && (err == nil ==> result0 != nil)
+
+//@ pure osReadDirE(h string, e int) error
+//@ extern os.ReadDir
+//@ use ufs
+//@ modifies alloc, osepoch
+//@ requires in_export: confined(name)
+//@ ensures OTICK && err == osReadDirE(name, old(OE)) && forall(j, 0, len(result0), result0[j] != nil)
+
+//@ ghost osremoves int
+//@ pure osRemoveE(h string, e int) error
+//@ extern os.Remove
+//@ use ufs
+//@ modifies alloc, osepoch, osremoves
+//@ requires in_export: confined(name)
+//@ ensures OTICK && err == osRemoveE(name, old(OE)) && gk(osremoves, 0) == old(gk(osremoves, 0)) + 1
+
+//@ pure osMkdirE(h string, perm os.FileMode, e int) error
+//@ extern os.Mkdir
+//@ use ufs
+//@ modifies alloc, osepoch
+//@ requires in_export: confined(name)
+//@ ensures OTICK && err == osMkdirE(name, perm, old(OE))
+
+//@ pure osOpenF(h string, flag int, perm os.FileMode, e int) *os.File
+//@ pure osOpenE(h string, flag int, perm os.FileMode, e int) error
+//@ extern os.OpenFile
+//@ use ufs
+//@ modifies alloc, osepoch
+//@ requires in_export: confined(name)
+//@ ensures OTICK && result0 == osOpenF(name, flag, perm, old(OE)) && err == osOpenE(name, flag, perm, old(OE)) && (err == nil ==> result0 != nil)
+
+//@ pure osChmodE(h string, mode os.FileMode, e int) error
+//@ extern os.Chmod
+//@ use ufs
+//@ modifies alloc, osepoch
+//@ requires in_export: confined(name)
+//@ ensures OTICK && err == osChmodE(name, mode, old(OE))
+
+//@ pure osChownE(h string, uid int, gid int, e int) error
+//@ extern os.Chown
+//@ use ufs
+//@ modifies alloc, osepoch
+//@ requires in_export: confined(name)
+//@ ensures OTICK && err == osChownE(name, uid, gid, old(OE))
+
+//@ pure osTruncateE(h string, size int64, e int) error
+//@ extern os.Truncate
+//@ use ufs
+//@ modifies alloc, osepoch
+//@ requires in_export: confined(name)
+//@ ensures OTICK && err == osTruncateE(name, size, old(OE))
+
+//@ pure osRenameE(from string, to string, e int) error
+//@ extern syscall.Rename
+//@ use ufs
+//@ modifies alloc, osepoch
+//@ requires source_in_export: confined(arg0)
+//@ requires target_in_export: confined(arg1)
+//@ ensures OTICK && err == osRenameE(arg0, arg1, old(OE))
+
+//@ pure fReadN(f *os.File, n int, off int64, e int) int
+//@ pure fReadE(f *os.File, n int, off int64, e int) error
+//@ extern os.(*File).ReadAt
+//@ modifies alloc, osepoch, E:uint8
+//@ ensures OTICK && n == fReadN(f, len(b), off, old(OE)) && err == fReadE(f, len(b), off, old(OE)) && onlyWindow("E:uint8", b)
+//@ pure fWriteN(f *os.File, b []byte, off int64, e int) int
+//@ pure fWriteE(f *os.File, b []byte, off int64, e int) error
+//@ extern os.(*File).WriteAt
+//@ modifies alloc, osepoch
+//@ ensures OTICK && n == fWriteN(f, b, off, old(OE)) && err == fWriteE(f, b, off, old(OE))
+//@ pure fCloseE(f *os.File, e int) error
+//@ extern os.(*File).Close
+//@ modifies alloc, osepoch
+//@ ensures OTICK && result == fCloseE(f, old(OE))
+
+// os.FileInfo as seen by dirFromInfo
+//@ pure fiName(i os.FileInfo) string
+//@ pure fiSize(i os.FileInfo) int64
+//@ pure fiMode(i os.FileInfo) os.FileMode
+//@ pure fiSys(i os.FileInfo) any
+//@ iface =os.FileInfo.Name
+//@ modifies nothing
+//@ ensures result == fiName(self)
+//@ iface =os.FileInfo.Size
+//@ modifies nothing
+//@ ensures result == fiSize(self)
+//@ iface =os.FileInfo.Mode
+//@ modifies nothing
+//@ ensures result == fiMode(self)
+//@ iface =os.FileInfo.ModTime
+//@ modifies nothing
+//@ iface =os.FileInfo.Sys
+//@ modifies nothing
+//@ ensures result == fiSys(self) && typeis(result, *syscall.Stat_t) && result.(*syscall.Stat_t) != nil
+//@ iface =os.FileInfo.IsDir
+//@ modifies nothing
+
+//@ iface =os.DirEntry.Info
+//@ modifies alloc
+//@ ensures err == nil ==> result0 != nil
+//@ extern os/user.Lookup
+//@ modifies alloc
+//@ ensures err == nil ==> result0 != nil
+//@ extern os/user.LookupGroup
+//@ modifies alloc
+//@ ensures err == nil ==> result0 != nil
+
+// ---------------------------------------------------------------- util.go (C19)
+
+//@ func oflags
+//@ property C19
+//@ ensures access: result & 3 == (mode & 3 == 1 ? 1 : (mode & 3 == 2 ? 2 : 0))
+//@ ensures trunc: (result & 512 != 0) <==> (mode & 16 != 0)
+//@ ensures nothing_else: result & 3 + result & 512 == result
+//@ ensures functional: result == oflagsSpec(mode)
+
+//@ pure oflagsSpec(mode p9p.Flag) int = (mode & 3 == 1 ? 1 : (mode & 3 == 2 ? 2 : 0)) + (mode & 16 != 0 ? 512 : 0)
+
+// ---------------------------------------------------------------- filesys.go / dirent.go (C15 C19)
+
+
+//@ macro FSOK(f) = (f != nil && f.Base == exportbase())
+//@ macro REFOK = (ref != nil && FSOK(ref.fs) && validInternal(ref.Path))
+//@ macro H = hostOf(ref.Path)
+//@ macro E = old(OE)
+
+//@ func (*fServer).newRef
+//@ property C15 C19
+//@ use ufs
+//@ requires FSOK(fs)
+//@ ensures rejects_invalid: !validInternal(p) ==> err != nil && OSAME
+//@ ensures stats_host: validInternal(p) ==> OTICK && err == osStatE(hostOf(p), E)
+//@ ensures ok: err == nil ==> result0 != nil && fresh(result0) && result0.fs == fs && result0.Path == p && validInternal(p) && result0.file == nil
+//@ ensures frame: preserved("ufs.FileRef.Path") && preserved("ufs.FileRef.fs") && preserved("ufs.FileRef.file") && preserved("ufs.FileRef.Info") && preserved("ufs.fServer.Base")
+
+//@ func (*fServer).Attach
+//@ property C15 C19
+//@ use ufs
+//@ requires FSOK(fs)
+//@ ensures err == nil ==> typeis(result0, *FileRef) && result0.(*FileRef) != nil && result0.(*FileRef).Path == "/" && result0.(*FileRef).fs == fs
+
+//@ func (*FileRef).Open
+//@ property C15 C19
+//@ use ufs
+//@ requires REFOK
+//@ ensures translation: OTICK && err == osOpenE(H, oflagsSpec(mode), 0, E) && (err == nil ==> ref.file == osOpenF(H, oflagsSpec(mode), 0, E))
+//@ ensures inv: ref.Path == old(ref.Path) && ref.fs == old(ref.fs)
+
+//@ func (*FileRef).OpenDir
+//@ property C15 C19
+//@ use ufs
+//@ requires REFOK
+//@ ensures lists_own_directory: OE <= E + 1 && (OE == E + 1 ==> osReadDirE(H, E) == nil || err == osReadDirE(H, E))
+
+//@ func (*FileRef).Read
+//@ property C15 C19
+//@ requires ref != nil && ref.file != nil
+//@ ensures translation: OTICK && n == fReadN(ref.file, len(p), offset, E) && (fReadE(ref.file, len(p), offset, E) == nil || fReadE(ref.file, len(p), offset, E) == io.EOF ==> err == nil) && (fReadE(ref.file, len(p), offset, E) != nil && fReadE(ref.file, len(p), offset, E) != io.EOF ==> err == fReadE(ref.file, len(p), offset, E))
+
+//@ func (*FileRef).Write
+//@ property C15 C19
+//@ requires ref != nil && ref.file != nil
+//@ ensures translation: OTICK && n == fWriteN(ref.file, p, offset, E) && err == fWriteE(ref.file, p, offset, E)
+
+//@ func (*FileRef).Remove
+//@ property C15 C19
+//@ use ufs
+//@ requires REFOK
+//@ ensures root_is_never_removed: old(ref.Path) == "/" ==> err != nil && gk(osremoves, 0) == old(gk(osremoves, 0))
+//@ ensures closes_then_removes: old(ref.Path) != "/" && old(ref.file) == nil ==> OTICK && err == osRemoveE(H, E)
+
+//@ func (*FileRef).Walk
+//@ property C15 C19
+//@ use ufs
+//@ requires REFOK
+//@ ensures clone_restats: len(names) == 0 ==> OTICK && err == osStatE(H, E)
+//@ ensures result_stays_inside: err == nil ==> typeis(result1, *FileRef) && result1.(*FileRef) != nil && validInternal(result1.(*FileRef).Path) && result1.(*FileRef).fs == ref.fs
+//@ ensures inv: ref.Path == old(ref.Path)
+
+//@ func (*FileRef).Create
+//@ property C15 C19
+//@ use ufs
+//@ requires REFOK
+//@ let NR = path.Join(ref.Path, name)
+//@ let HN = hostOf(path.Join(ref.Path, name))
+//@ ensures bad_name: !plainName(name) || !validInternal(NR) ==> err != nil && OSAME
+//@ ensures mkdir: plainName(name) && validInternal(NR) && perm & 2147483648 != 0 ==> OE >= E + 1 && (osMkdirE(HN, perm & 511, E) != nil ==> err == osMkdirE(HN, perm & 511, E) && OE == E + 1)
+//@ ensures create_file: plainName(name) && validInternal(NR) && perm & 2147483648 == 0 && perm & 33554432 == 0 && perm & 2097152 == 0 && perm & 8388608 == 0 ==> OE >= E + 1 && (osOpenE(HN, oflagsSpec(mode) + 64, perm & 511, E) != nil ==> err == osOpenE(HN, oflagsSpec(mode) + 64, perm & 511, E) && OE == E + 1)
+//@ ensures result_stays_inside: err == nil ==> typeis(result0, *FileRef) && result0.(*FileRef) != nil && result0.(*FileRef).Path == NR && validInternal(NR) && result0.(*FileRef).fs == ref.fs
+
+//@ pure plainName(s string) bool = !strings.ContainsAny(s, "\\/") && len(s) != 0 && s != "." && s != ".."
+
+//@ func (*FileRef).WStat
+//@ property C15 C19
+//@ use ufs
+//@ requires REFOK
+//@ ensures nothing_to_do: dir.Mode == 4294967295 && dir.UID == "" && dir.GID == "" && dir.Name == "" && dir.Length == 18446744073709551615 ==> err == nil && OSAME
+//@ ensures chmod_first: dir.Mode != 4294967295 ==> OE >= E + 1 && (osChmodE(hostOf(old(ref.Path)), dir.Mode & 511, E) != nil ==> err == osChmodE(hostOf(old(ref.Path)), dir.Mode & 511, E) && OE == E + 1)
+//@ ensures truncate_only: dir.Mode == 4294967295 && dir.UID == "" && dir.GID == "" && dir.Name == "" && dir.Length != 18446744073709551615 ==> OTICK && err == osTruncateE(hostOf(old(ref.Path)), int64(dir.Length), E)
+//@ ensures path_stays_valid: validInternal(ref.Path) && ref.fs == old(ref.fs)
+
+//@ func dirFromInfo
+//@ property C19
+//@ requires info != nil
+//@ ensures fields: result.Name == fiName(info) && result.Length == uint64(fiSize(info)) && result.Mode & 511 == fiMode(info) & 511 && result.MUID == "none" && result.Qid.Path == fiSys(info).(*syscall.Stat_t).Ino
